@@ -14,14 +14,14 @@ TABLE = {
         ref="DESIGN.md section 4, C01",
     ),
     "C02": dict(
-        technique="model-based oracle: exhaustive enumeration of small expression trees + Hypothesis-generated trees, rendered in 3 parenthesisation modes x 12 contexts, compared with the grammar-derived expected AST",
-        text="Every expression tree with up to 2 (quick) / 3 (thorough) operator nodes over 54 operator kinds is rendered with minimal and full parentheses in 12 contexts and the parsed subtree must equal the tree derived from the C grammar; Hypothesis adds deeper random trees with redundant parentheses and every constant kind. Complete inside the enumerated bound, statistical beyond.",
+        technique="model-based oracle: exhaustive enumeration of small expression trees + Hypothesis-generated trees, rendered in 3 parenthesisation modes x 17 contexts, compared with the grammar-derived expected AST; position sweeps of a fixed unit over token indices",
+        text="Every expression tree with up to 2 (quick) / 3 (thorough) operator nodes over 54 operator kinds is rendered with minimal and full parentheses (identifiers and constants included) in 17 contexts and the parsed subtree must equal the tree derived from the C grammar; Hypothesis adds deeper random trees with redundant parentheses and every constant kind. A fixed unit of position-sensitive constructs is parsed behind N empty declarations for every N that puts one of its tokens on a power-of-two or round decimal token index up to 131 072 / 262 144, and repeated 120 / 800 times behind j empty declarations for every j below its length (each token on every index up to 11 000 / 76 000). Complete inside the enumerated bounds, statistical beyond.",
         note="Trusted: the independent expression model in vlib/cmodel.py (levels table, renderer, expected-AST builder), cross-checked by the renderer/expectation agreeing with the unchanged parser on > 200 000 cases.",
         ref="DESIGN.md section 4, C02",
     ),
     "C03": dict(
         technique="model-based oracle: exhaustive enumeration of declarator derivation sequences x contexts + Hypothesis-generated full declarations, compared with the AST the inside-out declarator rule gives; specifier census",
-        text="Every derivation sequence up to length 3 (quick) / 4 (thorough) over 20 pointer/array/function constructors is placed in 11 declaration and type-name contexts and the parsed chain must equal the derivation order; Hypothesis generates complete declarations (specifier shuffles, multi-declarators, initializers with designators, bit-fields, bodies, K&R and prototype definitions). Complete inside the bound, statistical beyond; _Atomic(T) beyond its simplest form is excluded (known findings F12*).",
+        text="Every derivation sequence up to length 3 (quick) / 4 (thorough) over 20 pointer/array/function constructors is placed in 11 declaration and type-name contexts and the parsed chain must equal the derivation order; Hypothesis generates complete declarations (specifier shuffles with repeated qualifiers and function specifiers, multi-declarators, redundant parentheses in named and abstract declarators, initializers with designators, bit-fields, tags re-defined in sibling scopes, look-alike identifier spellings, bodies, K&R and prototype definitions). Complete inside the bound, statistical beyond; _Atomic(T) beyond its simplest form is excluded (known findings F12*).",
         note="Trusted: the declaration model in vlib/cmodel.py (inside-out renderer and expected-AST builder) and the normalisation of TypeDecl.align / Typename.name.",
         ref="DESIGN.md section 4, C03",
     ),
@@ -39,7 +39,7 @@ TABLE = {
     ),
     "C07": dict(
         technique="round-trip oracle (parse . generate . parse = parse, regenerate = identity) over enumerated small constructs, Hypothesis-generated translation units, corpus, accepted token-mutants and accepted inputs of coverage-guided campaigns (atheris/libFuzzer, parser and generator instrumented), both generator configurations",
-        text="Every 2-operator expression tree, every derivation sequence up to length 2 (quick) / 3 (thorough) in 11 contexts, every small statement tree and switch body, Hypothesis-generated whole translation units, the preprocessed repository corpus, the corner catalogue, accepted token-mutants, the committed fuzz corpus and the accepted inputs of 4 (quick) / 20 (thorough) coverage-guided campaigns (round trip inside the fuzz target, buckets re-decided by the check) are round-tripped with reduce_parentheses off and on. Complete inside the enumerated bound, statistical beyond; listed generator findings (F21, F25a, F12*) are excluded by construction or by an AST predicate on the input.",
+        text="Every 2-operator expression tree, every derivation sequence up to length 2 (quick) / 3 (thorough) in 11 contexts, every small statement tree and switch body, Hypothesis-generated whole translation units, the preprocessed repository corpus, the corner catalogue, accepted token-mutants, literals / identifiers / lists whose size is close to 127 ... 1023 (31 ... 4095) with escapes on every offset around the limit, the committed fuzz corpus and the accepted inputs of 4 (quick) / 20 (thorough) coverage-guided campaigns (round trip inside the fuzz target, buckets re-decided by the check) are round-tripped with reduce_parentheses off and on. Complete inside the enumerated bound, statistical beyond; listed generator findings (F21, F25a, F12*) are excluded by construction or by an AST predicate on the input.",
         note="Trusted: astdump.dump as structural equality; programs the parser rejects carry no claim.",
         ref="DESIGN.md section 4, C07",
     ),
@@ -51,31 +51,31 @@ TABLE = {
     ),
     "C09": dict(
         technique="reference-tokenizer oracle: Hypothesis-generated token sequences under random layouts and directive lines, exhaustive token pairs, exhaustive short strings for the progress/no-silent-skip part",
-        text="Generated token sequences with known classes, spellings, lines and columns are laid out with every kind of white space, adjacency where the independent longest-match tokenizer allows it, #pragma lines and 8 linemarker forms; CLexer must return exactly the expected stream. All ordered pairs of the 157-token vocabulary and all strings of length <= 4 (quick) / 5 (thorough) over 20 characters are enumerated completely; longer inputs are sampled.",
+        text="Generated token sequences with known classes, spellings, lines and columns are laid out with every kind of white space, adjacency where the independent longest-match tokenizer allows it, #pragma lines and 14 linemarker forms (file names spelled with escapes, the empty name); CLexer must return exactly the expected stream; 1 500 - 50 000 directive or blank lines in a row must be lexed through; one long-lived lexer left in abandoned states must behave like a fresh one. All ordered pairs of the 157-token vocabulary and all strings of length <= 4 (quick) / 5 (thorough) over 20 characters are enumerated completely; longer inputs are sampled.",
         note="Trusted: vlib/reflex.py (C99 6.4 pp-token grammar and classifiers). After an error callback only progress and accounting of characters are required, not exact positions.",
         ref="DESIGN.md section 4, C09",
     ),
     "C10": dict(
         technique="exhaustive enumeration of short strings over three literal alphabets against strict and lenient reference grammars (sandwich oracle) + Hypothesis grammar-based literals and corruptions; Constant type/value through the parser",
-        text="Every string up to length 5 (quick) / 6 (thorough) over integer, floating and character/string alphabets is lexed and compared with an independent strict C99 literal grammar (must be accepted) and a lenient one (what is accepted must be a literal of that class); malformed families must invoke the error callback; accepted literals are parsed as an initializer, in 6 other positions and in 4 positions the parser reads twice (type name of a compound literal) and Constant.value/type compared with what the spelling implies; Hypothesis-generated runs of adjacent string literals of one prefix family in 13 positions must give one Constant with the concatenated spelling. Complete inside the bound; long literals sampled.",
+        text="Every string up to length 5 (quick) / 6 (thorough) over integer, floating and character/string alphabets (alphabets include a decimal digit of another script) is lexed - prefixed literals also with L / u / U / u8 reported as typedef names - and compared with an independent strict C99 literal grammar (must be accepted) and a lenient one (what is accepted must be a literal of that class); malformed families must invoke the error callback; accepted literals are parsed as an initializer, in 6 other positions and in 4 positions the parser reads twice (type name of a compound literal) and Constant.value/type compared with what the spelling implies; Hypothesis-generated runs of adjacent string literals of one prefix family in 13 positions must give one Constant with the concatenated spelling. Complete inside the bound; long literals sampled.",
         note="Trusted: strict/lenient literal grammars in vlib/reflex.py and the malformed-family predicates in vlib/props/c10.py.",
         ref="DESIGN.md section 4, C10",
     ),
     "C14": dict(
         technique="exhaustive sentinel-instance sweep over the classes of _c_ast.cfg (read by an independent cfg parser) + instrumented visitors and show() on Hypothesis-generated and corpus ASTs against the preorder computed from the cfg",
-        text="All node classes x all subsets of absent children x sequence shapes are enumerated completely and compared with the cfg (signature, slots, attr_names, children(), iteration); traversal (generic, selective with random class subsets, reused visitors, visitor class hierarchies, handlers attached to the instance or served by __getattr__, reuse after a traversal abandoned by an exception) and show() line counts are checked on generated and corpus ASTs against a preorder derived from the cfg, not from children().",
+        text="All node classes x all subsets of absent children x sequence shapes are enumerated completely and compared with the cfg (signature, slots, attr_names, children(), iteration); traversal (generic, selective with random class subsets, reused visitors, visitor class hierarchies, handlers attached to the instance or served by __getattr__, reuse after a traversal abandoned by an exception, handlers that remove their node from the sequence being traversed, an overridden visit()) and show() line counts are checked on generated and corpus ASTs against a preorder derived from the cfg, not from children().",
         note="Trusted: the 10-line cfg reader; show() line rule is not asserted for ASTs with node-valued attributes (known finding F29).",
         ref="DESIGN.md section 4, C14",
     ),
     "C15": dict(
         technique="round-trip oracles (eval(repr), pickle protocols 2..HIGHEST, deepcopy) with structural dump equality incl. coordinates, id-disjointness and mutate-the-copy independence on Hypothesis-generated ASTs with hostile literals and on the corpus",
-        text="Generated translation units whose string/character constants and pragma texts come from a hostile pool (quotes, backslashes, escapes, non-ASCII, repr look-alikes) and the corpus are parsed; each AST is rebuilt through repr/eval, every supported pickle protocol and deepcopy and compared structurally, by generated text under both generator configurations (also for the repr-rebuilt tree), by object identity and by mutating the copy; every second AST is copied while weak references to all its nodes are alive. Statistical over generated programs.",
+        text="Generated translation units whose string/character constants and pragma texts come from a hostile pool (quotes, backslashes, escapes, non-ASCII, repr look-alikes) and the corpus are parsed; each AST is rebuilt through repr/eval, every supported pickle protocol and deepcopy and compared structurally, by generated text under both generator configurations (also for the repr-rebuilt tree), by object identity and by mutating the copy; every second AST is copied while weak references to all its nodes are alive; every fifth after a repr / pickle / deepcopy that was cut short by a RecursionError. Literal pools include characters outside the BMP and control characters. Statistical over generated programs.",
         note="Trusted: astdump.dump (walks __slots__, including node-valued attributes and Coord fields).",
         ref="DESIGN.md section 4, C15",
     ),
     "C19": dict(
         technique="exhaustive sweep over the shipped header files x dialects x argument forms through parse_file(use_cpp=True), differential oracle against a by-hand cpp + CParser pipeline, generated declarations using every typedef name; Hypothesis-chosen header subsets and orders",
-        text="All header files found under utils/fake_libc_include at run time x 4 dialects (list form) and the string form (include directory reached through a scratch symlink whose name contains a blank and '=') are preprocessed and parsed; results are compared with the by-hand pipeline (coordinates included, also for use_cpp=False) and every typedef name is used in generated declarations. The single-header space is enumerated completely; subsets and orders are sampled.",
+        text="All header files found under utils/fake_libc_include at run time x 4 dialects (list form) and the string form (include directory reached through a scratch symlink whose name contains a blank and '=') are preprocessed and parsed; results are compared with the by-hand pipeline (coordinates included, also for use_cpp=False) and every typedef name is used in generated declarations; including files that make cpp warn while it succeeds; 6 / 60 rounds of 8 parse_file calls overlapping in time against the same calls made alone. The single-header space is enumerated completely; subsets and orders are sampled.",
         note="Trusted: the system cpp; in the quick tier the deep comparisons run for -std=c11 and the string form only.",
         ref="DESIGN.md section 4, C19",
     ),
@@ -87,19 +87,19 @@ TABLE = {
     ),
     "C18": dict(
         technique="exhaustive single-bracket mutation and non-token injection of Hypothesis-generated and corpus programs (incl. every offset of every line directive) + exhaustive bracket strings in three contexts + coverage-guided campaigns (atheris/libFuzzer) over token sequences; bracket-matcher / non-token oracle",
-        text="Every single-bracket deletion, duplication and kind swap and every injection of non-token text at bracket positions and declaration/statement boundaries (every token boundary in the thorough tier) of accepted programs must be rejected with ParseError; all bracket strings up to length 6 (quick) / 8 (thorough) in expression, declarator and statement contexts that an independent matcher finds unbalanced must be rejected; non-token text and single brackets at every offset of every line directive of cpp-style and generated programs must be rejected; 4 (quick) / 20 (thorough) coverage-guided campaigns and the committed fuzz corpus check that token sequences with a non-token or non-nesting brackets are rejected. Complete per base program and inside the string bound; base programs are sampled.",
+        text="Every single-bracket deletion, duplication and kind swap and every injection of non-token text at bracket positions and declaration/statement boundaries (every token boundary in the thorough tier) of accepted programs must be rejected with ParseError; all bracket strings up to length 6 (quick) / 8 (thorough) in expression, declarator and statement contexts that an independent matcher finds unbalanced must be rejected; non-token text and single brackets at every offset of every line directive of cpp-style and generated programs must be rejected; characters no C token contains glued to the front, inside and end of every non-literal token, single-bracket mutants of the second of two identical copies placed behind the same linemarker, and all mutants of four programs with GNU statement expressions must be rejected; 4 (quick) / 20 (thorough) coverage-guided campaigns and the committed fuzz corpus check that token sequences with a non-token or non-nesting brackets are rejected. Complete per base program and inside the string bound; base programs are sampled.",
         note="Trusted: the 10-line bracket matcher and the reference tokenizer used to split corpus files.",
         ref="DESIGN.md section 4, C18",
     ),
     "C12": dict(
         technique="Hypothesis RuleBasedStateMachine over one long-lived CParser / CGenerator pair / CLexer, differential oracle after every call against a private copy of the package created for that one call (no module- or class-level state shared with the instance under test), id-disjointness of returned ASTs",
-        text="Histories of 20-40 calls (valid generated programs, programs truncated at arbitrary tokens incl. right after a #pragma token, a pool of clashing programs, texts identical up to one hole, token soup, repeated texts, code generation from any earlier AST, re-use of a bare lexer) are run on reused instances; every outcome (AST with coordinates or exception type and message, generated text, token stream) must equal a fresh instance's and ASTs must share no objects. Statistical over histories; shrinking works on the rule sequence.",
+        text="Histories of 20-40 calls (valid generated programs, programs truncated at arbitrary tokens incl. right after a #pragma token, a pool of clashing programs, texts identical up to one hole, token soup, repeated texts, code generation from any earlier AST, re-use of a bare lexer) are run on reused instances; every outcome (AST with coordinates or exception type and message, generated text, token stream) must equal that of a private copy of the package made for the call and ASTs must share no objects. Statistical over histories; shrinking works on the rule sequence.",
         note="Trusted: vlib/pristine.py (a fresh execution of the package sources under a private module name per reference; a fresh in-process instance is compared with it on every fourth call); astdump.dump with coordinates.",
         ref="DESIGN.md section 4, C12",
     ),
     "C13": dict(
         technique="schedule-owning harness: a lexer subclass injected through lexer= (and yielding CGenerator / NodeVisitor subclasses) parks each thread at every token()/visit() so that interleavings are values; exhaustive interleavings of short clashing program pairs, Hypothesis-generated schedules for 2-4 longer programs, free-running threads with minimal switch interval; oracle = results of the same calls run alone, computed by a private copy of the package per call and, for the pool programs, by a forked process without parsing history",
-        text="All interleavings at token granularity of 6 (quick) / 8 (thorough) clashing program pairs (incl. directives without file name; every program has its own file name) are enumerated; Hypothesis draws schedules for 2-4 parsers, generators and visitor subclasses on pool programs (two of them far deeper than the recursion limit) and generated programs; 4 and 8 free-running threads repeat parse+generate loops. Every result must equal the solo result. Complete for the enumerated pairs, statistical beyond; races inside a single method are only reachable by the free-running part.",
+        text="All interleavings at token granularity of 6 (quick) / 8 (thorough) clashing program pairs (incl. directives without file name; every program has its own file name) are enumerated; Hypothesis draws schedules for 2-4 parsers, generators and visitor subclasses on pool programs (two of them far deeper than the recursion limit) and generated programs; 4 and 8 free-running threads repeat parse+generate+parse_file loops; 4 / 24 fresh interpreters have their first parser objects created by 12 threads together; generator instances of four classes are used in drawn orders. Every result must equal the solo result. Complete for the enumerated pairs, statistical beyond; races inside a single method are only reachable by the free-running part.",
         note="Trusted: the controller (raw locks only; a stall of 8 s that repeats with an 80 s limit is reported as a difference, never ignored); vlib/pristine.py for the references.",
         ref="DESIGN.md section 4, C13",
     ),
@@ -111,7 +111,7 @@ TABLE = {
     ),
     "C16": dict(
         technique="scalable-family generation (enumerated units and ordered pairs, Hypothesis-composed triples, repetition families) with deterministic work oracles: Python call events (nesting families) and line events (repetition families) under the pycparser package with doubling-ratio and second-difference tests, executed machine instructions of a fresh interpreter under valgrind for large inputs; creeping and long-input CPU-time tests for the lexer regexes",
-        text="All single nesting units and ordered pairs of 46 expression, 14 statement and 9 declarator units, Hypothesis-drawn triples and 55 repetition families are parsed at doubling sizes; the number of pycparser-internal call / line events must at most double (x2.3 + slack) per doubling and, over four doubling sizes, show no quadratic component (second differences). Work inside single C-level operations is measured in executed instructions at k and 4k for 9 (quick) / 18 (thorough) families: at most 8 % of the work at 4k may be in excess of linear growth. 30 adversarial literal families are timed for the lexer (creeping from 2 units; 64-512 and 2 000-16 000 characters). Complete over the enumerated units; only the lexer part uses time, with wide margins, CPU time and re-measurement.",
+        text="All single nesting units and ordered pairs of 46 expression, 14 statement, 9 declarator and 7 tag-body units, Hypothesis-drawn triples and 62 repetition families (7 of them growing in two dimensions) are parsed at doubling sizes; the number of pycparser-internal call / line events must at most double (x2.3 + slack) per doubling and, over four doubling sizes, show no quadratic component (second differences). Work inside single C-level operations is measured in executed instructions at k and 4k for 9 (quick) / 18 (thorough) families: at most 8 % of the work at 4k may be in excess of linear growth. 36 adversarial literal and white-space families are timed for the lexer (creeping from 2 units; 64-512 and 2 000-16 000 characters). No family member is followed beyond 16x its event allowance or 15 s of user-mode CPU time. Complete over the enumerated units; only the lexer part uses time, with wide margins, CPU time and re-measurement.",
         note="Trusted: event counting by package directory; valgrind instruction counts (reproducible to 0.001 %); lexer timing thresholds (0.5 s for <= 64 units of an escape run, > 3x per doubling twice in a row above 20 ms). The exponential re-parse of a compound literal inside the type name of a compound literal is a known finding (F30) and excluded, as is the k^2 cost of k array suffixes (F34).",
         ref="DESIGN.md section 4, C16",
     ),
